@@ -77,6 +77,14 @@ CHECKS = {
              text="Random and boundary addresses; IPv6 over all 36 positions/lengths of '::' x upper/lower case x with/without leading zeros; ~45 malformed texts (group counts, ranges, two '::', ':::', stray separators, empty); held on everything observed.",
              note="Non-standard but tolerated spellings (signs, leading zeros in dotted quads, one-digit MAC octets, mixed IPv4 notation) are not judged.",
              design="6/C18"),
+ "C19": dict(level="exploration", technique="history checker against a Python pcap reader/writer: interleaved pcap_read_next / pcap_read_all / pcap_read_all(n) on one handle must return successive slices of the record list; write-back compared byte for byte; every truncation offset and header corruption must yield the complete records, then null or an error object",
+             text="400-12000 well-formed files (0-50 records, sizes around 0..70 / 4096 / 8192 / 65535, both magics, snaplen from max caplen to 2^32-1) x random read histories and write-back; every byte-offset truncation of 12-250 small files; 60-1500 corrupted files (caplen > snaplen, caplen beyond EOF, bad / big-endian magic, short global header); held on everything observed.",
+             note="Trusted: pkt.py. After the first null/error from a damaged file further reads are only required not to crash; pcap_read_all on a corrupted file may return the complete records or an error object.",
+             design="6/C19"),
+ "C20": dict(level="exploration", technique="reference-model monitor at the process boundary: random filter programs x random pcap streams through the real binary (dev and release, with and without -s); stdout pcap bytes / stdout text / stderr compared with a Python model of the stream loop",
+             text="500-15000 runs: 1-5 filters over NP/PL/WL/TSS/TSU, globals and L2 fields, actions updating globals/locals, printing, assigning L2/L3 fields, action-less selecting filters, optional end filter, 0-40 packets, both magics, random snaplen/linktype/version/zone/sigfigs; held on everything observed.",
+             note="Trusted: the 60-line stream-loop model in c20.py. Programs never raise inside a filter and print to stdout only with -s.",
+             design="6/C20"),
 }
 
 PENDING_REASON = "check not built yet in this session (design in DESIGN.md section 6); not claimed until its monitor runs silently on the unchanged tree"
